@@ -429,35 +429,6 @@ c05_names_f = [x for x in c05_names_g if x != "ThermalLossChannel"] + ["Kgate", 
 FOCK_CUTOFF = {1: 10, 2: 7, 3: 5}
 
 
-def rand_cov(rng, k):
-    """A physical k-mode covariance matrix (xxpp, hbar = 2 units) with x-p and inter-mode correlations."""
-    nu = [1.0 + (rng.uniform(0, 0.8) if rng.random() < 0.6 else 0.0) for _ in range(k)]
-    V = np.diag(nu + nu)
-
-    def rot(i, th):
-        S = np.eye(2 * k)
-        S[i, i] = S[i + k, i + k] = math.cos(th)
-        S[i, i + k] = -math.sin(th)
-        S[i + k, i] = math.sin(th)
-        return S
-    for i in range(k):
-        r = rng.uniform(-0.6, 0.6)
-        Sq = np.eye(2 * k)
-        Sq[i, i], Sq[i + k, i + k] = math.exp(-r), math.exp(r)
-        S = rot(i, rng.uniform(-math.pi, math.pi)) @ Sq @ rot(i, rng.uniform(-math.pi, math.pi))
-        V = S @ V @ S.T
-    for i in range(k - 1):
-        th = rng.uniform(0.2, 1.3)
-        B = np.eye(2 * k)
-        for o in (0, k):
-            B[i + o, i + o] = B[i + 1 + o, i + 1 + o] = math.cos(th)
-            B[i + o, i + 1 + o] = -math.sin(th)
-            B[i + 1 + o, i + o] = math.sin(th)
-        S = B @ rot(i, rng.uniform(-1, 1))
-        V = S @ V @ S.T
-    return (V + V.T) / 2
-
-
 def extra_cmd(rng, n, name, hbar):
     if name == "GaussianNoDecomp":
         k = rng.randint(1, min(2, n))
@@ -661,8 +632,69 @@ def gen_measure_case(rng, backend):
             "np_seed": rng.randrange(2 ** 31), "stepwise": True}
 
 
+def gen_prep_case(rng, backend, n, k):
+    """A Gaussian state prepared directly (Gaussian(V, r, decomp=False)) on an ordered subset of k of the n modes of a strongly correlated
+    register (sweep over every (n, k)): whatever was correlated with the re-prepared modes must be left in a physical state."""
+    hbar = rng.choice(HBARS)
+    order = rng.sample(range(n), n)
+    pre = []
+    for i in range(0, n - 1):
+        pre.append(["S2gate" if i % 2 == 0 else "BSgate", [round(rng.uniform(0.45, 0.9), 3) * rng.choice([1, -1]), round(rng.uniform(-3, 3), 3)], [order[i], order[i + 1]], False])
+    pre.append(["Dgate", [round(rng.uniform(0.1, 0.8), 3), round(rng.uniform(-3, 3), 3)], [rng.randrange(n)], False])
+    if n == 1:
+        pre.append(["Sgate", [round(rng.uniform(0.3, 0.8), 3), round(rng.uniform(-3, 3), 3)], [0], False])
+    V = rand_cov(rng, k) * (hbar / 2)
+    r = [round(rng.uniform(-0.6, 0.6), 3) * math.sqrt(hbar / 2) if rng.random() < 0.6 else 0.0 for _ in range(2 * k)]
+    tail = [["GaussianNoDecomp", [np.round(V, 9).tolist(), r], rng.sample(range(n), k), False]]
+    if rng.random() < 0.5:
+        tail.append(bc.weak_cmd(rng, n, UNITARY + ["LossChannel"]))
+    d = {"check": "phys", "backend": backend, "mode": "prepare", "n": n, "hbar": hbar, "cutoff": 0, "pre": pre, "tail": tail,
+         "np_seed": rng.randrange(2 ** 31), "stepwise": True}
+    if n >= 2 and rng.random() < 0.3:
+        d["sub"] = rng.sample(range(n), rng.randint(1, n))
+    return d
+
+
+def rand_cov(rng, k):
+    """A physical k-mode covariance matrix (xxpp, hbar = 2 units) with x-p and inter-mode correlations (1 <= k <= 4)."""
+    nu = [1.0 + (rng.uniform(0, 0.8) if rng.random() < 0.6 else 0.0) for _ in range(k)]
+    V = np.diag(nu + nu)
+
+    def rot(i, th):
+        S = np.eye(2 * k)
+        S[i, i] = S[i + k, i + k] = math.cos(th)
+        S[i, i + k] = -math.sin(th)
+        S[i + k, i] = math.sin(th)
+        return S
+    for i in range(k):
+        r = rng.uniform(-0.6, 0.6)
+        Sq = np.eye(2 * k)
+        Sq[i, i], Sq[i + k, i + k] = math.exp(-r), math.exp(r)
+        S = rot(i, rng.uniform(-math.pi, math.pi)) @ Sq @ rot(i, rng.uniform(-math.pi, math.pi))
+        V = S @ V @ S.T
+    for i in range(k - 1):
+        th = rng.uniform(0.2, 1.3)
+        B = np.eye(2 * k)
+        for o in (0, k):
+            B[i + o, i + o] = B[i + 1 + o, i + 1 + o] = math.cos(th)
+            B[i + o, i + 1 + o] = -math.sin(th)
+            B[i + 1 + o, i + o] = math.sin(th)
+        S = B @ rot(i, rng.uniform(-1, 1))
+        V = S @ V @ S.T
+    return (V + V.T) / 2
+
+
 def search_circuits(ctx):
     rng = ctx.rng
+    for backend in ("gaussian", "bosonic"):
+        for n in (1, 2, 3, 4):
+            for k in range(1, n + 1):
+                for _ in range(ctx.budget(3, 20)):
+                    d = gen_prep_case(rng, backend, n, k)
+                    r = eval_steps(d)
+                    ctx.case({x: d[x] for x in ("backend", "n", "hbar", "tail")}, nontrivial=n >= 2, bucket="phys-%s-prepare-%d-of-%d" % (backend, k, n))
+                    if r and r != "skip":
+                        ctx.counterexample(r[0], r[1], d)
     for backend, cnt in ctx.budget({"gaussian": 60, "bosonic": 100}, {"gaussian": 500, "bosonic": 800}).items():
         run_family(ctx, lambda: gen_measure_case(rng, backend), cnt, lambda d: "phys-%s-measure" % d["backend"], lambda d: True)
     per = ctx.budget({"gaussian": 320, "bosonic": 280, "fock-pure": 18, "fock-mixed": 16},
